@@ -193,6 +193,17 @@ CLAIMED['C14'] = dict(
     note='Lowest-priority claim; R14.5 checks the shape of the offset expressions, not their evaluation.',
     ref='DESIGN.md section 3, C14')
 
+CLAIMED['C20'] = dict(
+    technique='who-may-call census, path rule on the validator, set comparison of option tables, sibling comparison, dominance',
+    text='Static, narrow: config-file parsers are only used as config_file_parser_class of the one ArgumentParser, with the validator '
+         'installed, and Options is only built by from_namespace (R20.1); an unknown key reaches warnings.warn and is not forwarded, a '
+         'known key is forwarded under exactly the spelling that was looked up (R20.2); the add_argument destinations minus the popped '
+         'ones equal the attrs fields of Options (R20.3); TOML and INI parsers stringify alike and turn library errors into '
+         'ConfigFileParserException (R20.4); a quoted INI value is never split and is evaluated by unquote_str (R20.5); TOML is tried '
+         'before INI over the same sections (R20.6). Does not decide that a particular value survives quoting.',
+    note='Trusts configargparse to merge config-file values into the same argparse actions as command-line values.',
+    ref='DESIGN.md section 3, C20')
+
 NOT_APPLICABLE = {
     'C04': 'relation between expandName results and the interpreter import system over all projects: value computations, no clause visible in the shape of the code (DESIGN.md section 5)',
     'C06': 'quantifies over processing schedules; name resolution during the AST walk is order sensitive by design, no structural bound (DESIGN.md section 5); the one structural fact (post-processing after the drain loop) is checked under C05',
